@@ -81,6 +81,7 @@ type TargetCfg struct {
 type ClientSpec struct {
 	Prefix GPath `json:"pre"`
 	Path   GPath `json:"path"`
+	More   []GPath `json:"more,omitempty"` // the paths of further subscription entries of the same request
 	Slow   int   `json:"slow,omitempty"` // microseconds the client spends on every notification
 }
 
@@ -533,7 +534,15 @@ func gallina(n *vh.Names, c *Case, addrOf map[string]string) string {
 	// clients
 	cl := make([]string, len(c.Clients))
 	for i, q := range c.Clients {
-		cl[i] = fmt.Sprintf("(Cq %s %s, %s)", p.gpath(q.Prefix), p.gpath(q.Path), p.view(c.Obs.Clients[i]))
+		if len(q.More) == 0 {
+			cl[i] = fmt.Sprintf("(Cq %s %s, %s)", p.gpath(q.Prefix), p.gpath(q.Path), p.view(c.Obs.Clients[i]))
+		} else {
+			more := make([]string, len(q.More))
+			for j, g := range q.More {
+				more[j] = p.gpath(g)
+			}
+			cl[i] = fmt.Sprintf("(Cqs %s %s %s, %s)", p.gpath(q.Prefix), p.gpath(q.Path), vh.List(more), p.view(c.Obs.Clients[i]))
+		}
 	}
 	fmt.Fprintf(&b, " %s\n", vh.List(cl))
 	// files, protos
